@@ -547,10 +547,20 @@ impl OwnedLazyValue {
         if status == HasEsc::None {
             Self(LazyPacked::NonEscStrRaw(raw))
         } else {
-            Self(LazyPacked::Raw(LazyRaw {
+            Self::from_raw(raw)
+        }
+    }
+
+    // `LazyRaw` only holds numbers, strings, arrays and objects, the literals are parsed here.
+    fn from_raw(raw: FastStr) -> Self {
+        match raw.as_bytes().first() {
+            Some(b't') => true.into(),
+            Some(b'f') => false.into(),
+            Some(b'n') => ().into(),
+            _ => Self(LazyPacked::Raw(LazyRaw {
                 raw,
                 parsed: AtomicPtr::new(std::ptr::null_mut()),
-            }))
+            })),
         }
     }
 
@@ -588,10 +598,7 @@ impl<'de> From<LazyValue<'de>> for OwnedLazyValue {
             return Self(LazyPacked::NonEscStrRaw(raw));
         }
 
-        Self(LazyPacked::Raw(LazyRaw {
-            raw,
-            parsed: AtomicPtr::new(std::ptr::null_mut()),
-        }))
+        Self::from_raw(raw)
     }
 }
 
